@@ -42,6 +42,11 @@ CLAIMS = {
             'TLC checks ValidApplied, BackupLaw/BackupValue, NoCorrupt, Separation, BackoffLaw, BoundedResponse (safety form of "always issues another request"), RequestCount and NoReferenceOnlyKeepsTime over all interleavings of time steps with reference-clock outcomes {not ready, ready+valid (two values), ready+invalid} for 4 (thorough 6) configurations x {distinct backup, backup = reference, no reference}; vacuity is excluded by requiring every loop() branch to be taken. Every transition of the (shorter-horizon) graph is replayed in a subclass of the real class and the FSM status, retry period, request/sync timestamps, embedded clock state, backup writes, requests sent, getNow() and getLastSyncTime() are compared with the model after every loop() call.',
             'Time on a per-configuration lattice of step sizes, loop() after every step. 32-bit wrap of millis() inside SystemClockLoop is not exercised on the 64-bit host.',
             '§4.8, §6-C14'),
+    'C09': ('model_checking',
+            'ZoneProc.tla (NoNullDeref, ErrorsRepeat) and TransitionPool.tla checked by TLC; model transitions replayed and pool-event traces (hook H2) validated against the real code; ASan/UBSan as monitors on model-generated histories and exhaustive-style sweeps',
+            'Three clauses. (i) Totality and repeated errors: TLC proves NoNullDeref and ErrorsRepeat on ZoneProc.tla with the argument classes {valid, below range, above range, sentinel}; every model transition is replayed in the ASan+UBSan build of Basic/Extended/managed time zones, answer class and processor state compared. (ii) No UB / out-of-bounds: every public value-type operation is swept over the int32 instants (strided + all boundaries), boundary component tuples, all int16 offsets, error values and truncated strings in a UBSan-recover build; each distinct UB site is a violation (13 signed-overflow sites are known findings, listed by call site); zone processors are swept under the sanitizers too. (iii) Buffers: TLC proves on TransitionPool.tla that the pool is safe while occupancy stays below capacity (and refutes unconditional safety); for every zonedbx zone x year 1999..2050 the real high-water mark must stay below the recorded size and 8, and the H2 event sequence of each init() is validated against the pool protocol by TLC; hook H1 shows the basic processor never needs a sixth slot.',
+            'UB/OOB is decided by the sanitizers on the executions generated, not by TLC. Known findings: 13 signed-overflow call sites in LocalDate/LocalDateTime/OffsetDateTime conversions.',
+            '§4.4, §4.5, §6-C09, §8'),
 }
 
 PLANNED = {
@@ -76,7 +81,7 @@ def main():
             'guard': 'ACETIME_VERIF',
             'enable': 'checks export ACETIME_VERIF=1 and compile /repo/src with -DACE_TIME_VERIF_HOOKS=1 (vf/common.py build_binary); without the macro the added lines are preprocessed away',
             'baseline_off_cmd': 'cd /repo && env -u ACETIME_VERIF /venv/bin/python -m pytest -ra -q -p no:cacheprovider --timeout=900 --continue-on-collection-errors tools/tests',
-            'source_commits': ['13cbacb'],
+            'source_commits': ['13cbacb', 'b58564e'],
             'add_only': True,
         },
         'engines': [
